@@ -647,14 +647,13 @@ def gen_go_mod(rnd):
                 s = out.mark()
                 out.w(v)
                 e = out.mark()
-                out.w(rnd.choice(['', '', ' // indirect', '\t// indirect']) + nl)
+                out.w(rnd.choice(['', '', ' // indirect', '\t// indirect', ' ', '\t ', '  // indirect  ']) + nl)
                 doc.declared.append({'name': m, 'spec': v, 'hash': None, 'start': s, 'end': e, 'classes': set(), 'token': (s, e)})
             close = rnd.random()
-            if close < 0.06:
-                out.w(') // end of requires' + nl)
-                doc.classes.add('gomod-block-close-comment')
+            if close < 0.15:
+                out.w(rnd.choice([') // end of requires', ')// x', ')  //', ' ) // y ']) + nl)
             else:
-                out.w(rnd.choice(['', ' ']) + ')' + nl)
+                out.w(rnd.choice(['', ' ']) + ')' + rnd.choice(['', '', ' ', '\t']) + nl)
         elif b == 'replace':
             if rnd.random() < 0.5:
                 out.w('replace example.com/old v1.0.0 => example.com/new v1.2.0' + nl)
